@@ -31,6 +31,10 @@
 (*                 inside try/finally: asyncio.Lock.release() does not     *)
 (*                 check ownership);  FALSE = `async with`, the design     *)
 (*                                                                         *)
+(*   LockPerName   TRUE = one lock per remote file name instead of one     *)
+(*                 lock ("only equally named files compete for a path":    *)
+(*                 wrong, the duplicate strategy invents names);  FALSE =  *)
+(*                 the design: a single lock                               *)
 (*   ForgetUncreated FALSE = the code as found: a download that leaves the *)
 (*                 prepare step (pause: task cancelled; OSError from the   *)
 (*                 directory creation / open) after its path was chosen    *)
@@ -68,6 +72,7 @@ CONSTANTS
                   \*       symmetry of equal downloads; bounds the cancellation configurations)
   AllowPause, AllowIoError, AllowResume,
   ForgetUncreated,
+  LockPerName,
   MaxInterrupts   \* bound on the number of Abort / Pause / IoError steps of a behaviour
 
 MaxIdx == 6
@@ -123,7 +128,7 @@ VARIABLES
   chosen,     \* per download: the chosen local path relative to the download directory
               \* (directory components as returned, then the file name), <<>> = none
   fresh,      \* per download: the chosen path did not exist when it was chosen
-  lock,       \* holder of the download-path lock (Reserve only), 0 = free
+  lock,       \* per lock key: holder of the download-path lock (Reserve only), 0 = free
   made,       \* per download: its local file was created (reserved) by this download
   nint        \* number of interruptions (Abort / Pause / IoError) so far
 
@@ -187,7 +192,16 @@ PredictX(c, p, san) ==
 Refuses(p) == RefusesX(p, SanitiseDots)
 Predict(c, p) == PredictX(c, p, SanitiseDots)
 
-----------------------------------------------------------------------------
+------------------------------------------------------------------------\* the lock a download competes for: the only one, or (LockPerName) the one of its remote file name
+LockKeys == Comps \cup {"*"}
+Key(d) == IF LockPerName /\ Split(remote[d]) # <<>> THEN Last(Split(remote[d])) ELSE "*"
+Free(d) == lock[Key(d)] = 0
+Holds(d) == lock[Key(d)] = d
+Taken(d) == [lock EXCEPT ![Key(d)] = d]
+Dropped(d) == [lock EXCEPT ![Key(d)] = 0]
+
+
+----
 \* Initial states: remote paths, chain, pre-existing contents derived from download 1's path
 
 Regular(p) == SelectSeq(p, LAMBDA c : ~IsDotName(c))
@@ -221,7 +235,7 @@ Init ==
   /\ pc = [d \in Downloads |-> "choose"]
   /\ chosen = [d \in Downloads |-> <<>>]
   /\ fresh = [d \in Downloads |-> TRUE]
-  /\ lock = 0
+  /\ lock = [k \in LockKeys |-> 0]
   /\ made = [d \in Downloads |-> FALSE]
   /\ nint = 0
 
@@ -239,24 +253,24 @@ MayArrive(d) == OrderedArrival => \A e \in Downloads : e < d => Arrived(e)
 \* repaired design: the lock is taken: the download waits in acquire() (a suspension point)
 Wait(d) ==
   /\ pc[d] = "choose" /\ MayArrive(d)
-  /\ Reserve /\ lock # 0
+  /\ Reserve /\ ~Free(d)
   /\ pc' = [pc EXCEPT ![d] = "wait"]
   /\ UNCHANGED <<files, dirs, chain, remote, chosen, fresh, lock, made, nint>>
 
 ChooseAs(d, out) ==
   /\ pc[d] \in {"choose", "wait"} /\ (pc[d] = "choose" => MayArrive(d))
-  /\ Reserve => lock = 0
+  /\ Reserve => Free(d)
   /\ chosen' = [chosen EXCEPT ![d] = out]
   /\ fresh' = [fresh EXCEPT ![d] = ~Exists(out)]
   /\ pc' = [pc EXCEPT ![d] = "mkdir"]
-  /\ lock' = IF Reserve THEN d ELSE lock
+  /\ lock' = IF Reserve THEN Taken(d) ELSE lock
   /\ made' = [made EXCEPT ![d] = FALSE]
   /\ UNCHANGED <<files, dirs, chain, remote, nint>>
 
 \* the code raises instead of choosing: nothing is chosen, nothing is created
 Refuse(d) ==
   /\ pc[d] \in {"choose", "wait"} /\ (pc[d] = "choose" => MayArrive(d))
-  /\ Reserve => lock = 0
+  /\ Reserve => Free(d)
   /\ pc' = [pc EXCEPT ![d] = "refused"]
   /\ UNCHANGED <<files, dirs, chain, remote, chosen, fresh, lock, made, nint>>
 
@@ -273,7 +287,7 @@ Remembered(d) ==
 \* an OSError inside the prepare step fails the transfer (transfer/manager.py `except OSError`)
 GiveUp(d) ==
   /\ pc' = [pc EXCEPT ![d] = "failed"]
-  /\ lock' = IF lock = d THEN 0 ELSE lock
+  /\ lock' = IF Holds(d) THEN Dropped(d) ELSE lock
   /\ chosen' = Remembered(d)
   /\ UNCHANGED <<files, dirs>>
 
@@ -303,11 +317,11 @@ Created(d) == LET pos == Resolve(chosen[d]) IN IF pos.up = 0 THEN {pos.at} ELSE 
 
 \* repaired design only: the file is created before the lock is released
 Touch(d) ==
-  /\ pc[d] = "touch" /\ (lock = d \/ ForeignRelease)
+  /\ pc[d] = "touch" /\ (Holds(d) \/ ForeignRelease)
   /\ IF CanOpen(d)
        THEN /\ files' = files \cup Created(d)
             /\ pc' = [pc EXCEPT ![d] = "start"]
-            /\ lock' = 0
+            /\ lock' = Dropped(d)
             /\ made' = [made EXCEPT ![d] = TRUE]
             /\ UNCHANGED <<dirs, chosen>>
        ELSE GiveUp(d) /\ UNCHANGED made
@@ -337,7 +351,7 @@ Finish(d) ==
   /\ UNCHANGED <<files, dirs, chain, remote, chosen, fresh, lock, made, nint>>
 
 Interruptible(d) == pc[d] \in {"wait", "mkdir", "touch", "start", "open", "writing"}
-Released(d) == IF lock = d \/ (pc[d] = "wait" /\ ForeignRelease) THEN 0 ELSE lock
+Released(d) == IF Holds(d) \/ (pc[d] = "wait" /\ ForeignRelease) THEN Dropped(d) ELSE lock
 
 \* The user aborts (removes) download d: its task is cancelled at its current await, the lock is
 \* released if d holds it (`async with`), the local file is removed and the path forgotten.
@@ -383,9 +397,9 @@ Resume(d) ==
   /\ IF chosen[d] = <<>>
        THEN /\ pc' = [pc EXCEPT ![d] = "choose"]
             /\ UNCHANGED lock
-       ELSE /\ Reserve => lock = 0
+       ELSE /\ Reserve => Free(d)
             /\ pc' = [pc EXCEPT ![d] = "mkdir"]
-            /\ lock' = IF Reserve THEN d ELSE lock
+            /\ lock' = IF Reserve THEN Taken(d) ELSE lock
   /\ UNCHANGED <<files, dirs, chain, remote, chosen, fresh, made, nint>>
 
 Next == \E d \in Downloads :
@@ -402,7 +416,7 @@ TypeOK ==
   /\ \A d \in Downloads :
        pc[d] \in {"choose", "wait", "mkdir", "touch", "start", "open", "writing", "done", "refused", "failed",
                  "aborted", "paused"}
-  /\ lock \in Downloads \cup {0}
+  /\ lock \in [LockKeys -> Downloads \cup {0}]
 
 HasChosen(d) == chosen[d] # <<>>
 
@@ -421,7 +435,7 @@ DistinctActivePaths ==
     \A d, e \in Downloads : (d # e /\ Active(d) /\ Active(e)) => Resolve(chosen[d]) # Resolve(chosen[e])
 
 \* the reservation is exclusive: whoever is between choice and creation holds the lock
-LockHeld == (Reserve /\ ~ForeignRelease) => \A d \in Downloads : pc[d] \in {"mkdir", "touch"} => lock = d
+LockHeld == (Reserve /\ ~ForeignRelease) => \A d \in Downloads : pc[d] \in {"mkdir", "touch"} => Holds(d)
 
 \* state constraint of the path-algebra configurations: what happens after the choice is explored
 \* by the race configurations
